@@ -10,7 +10,7 @@ def sh(cmd, cwd=None, env=None, timeout=1800):
 
 def main():
     pid = sys.argv[1]
-    src = f"/tmp/seed/{pid}/_seed"
+    src = f"/tmp/seed/{pid}{os.environ.get('SEED_TAG', '')}/_seed"
     metas = json.load(open(src + "/meta.json"))
     if isinstance(metas, dict): metas = metas.get("variants") or [metas]
     want = [int(x) for x in sys.argv[2:]] or [m["variant"] for m in metas]
